@@ -124,7 +124,10 @@ func Open(dir string, cfg Config) (h *H, err error) {
 
 func (h *H) install() {
 	current.Store(h)
-	verifhook.SetPausedHandler(func(name string) bool { return name == "compaction" })
+	// background activities owned by the harness: the compaction loop (driven through
+	// Maint instead) and the periodic stats collection (it walks the memtable index from
+	// its own goroutine at start-up and every 5 s, concurrently with client writes).
+	verifhook.SetPausedHandler(func(name string) bool { return name == "compaction" || name == "stats" })
 	verifhook.SetInt64Handler(func(name string) int64 {
 		if name == "lsm.arenaSize" {
 			return 1 << 20 // one 1 MiB chunk instead of 64 MiB: the arena still grows chunk by chunk
